@@ -56,6 +56,8 @@ def encode_chunk(chunk, block_size):
 
 def _encode_channel(chunk_channel, block_size):
     block_size = tuple(block_size)
+    # Blocks are indexed in the same (z, y, x) order as the chunk
+    block_shape = (block_size[2], block_size[1], block_size[0])
     # Grid size (number of blocks in the chunk)
     gx = ceil_div(chunk_channel.shape[2], block_size[0])
     gy = ceil_div(chunk_channel.shape[1], block_size[1])
@@ -68,8 +70,8 @@ def _encode_channel(chunk_channel, block_size):
             y*block_size[1] : (y+1)*block_size[1],
             x*block_size[0] : (x+1)*block_size[0]
         ]
-        if block.shape != block_size:
-            block = pad_block(block, block_size)
+        if block.shape != block_shape:
+            block = pad_block(block, block_shape)
 
         # TODO optimization: to improve additional compression (gzip), sort the
         # list of unique symbols by decreasing frequency using
@@ -175,7 +177,8 @@ def _decode_channel_into(chunk, channel, buf, block_size):
         lookup_table = np.frombuffer(
             buf[lookup_table_offset:lookup_table_past_end], dtype=chunk.dtype)
         if bits == 0:
-            block = np.empty(block_size, dtype=chunk.dtype)
+            block = np.empty((block_size[2], block_size[1], block_size[0]),
+                             dtype=chunk.dtype)
             try:
                 block[...] = lookup_table[0]
             except IndexError as exc:
